@@ -447,3 +447,34 @@ pub fn nearblocks(seed: u64, thorough: bool) -> Vec<BuildSpec> {
     }
     out
 }
+
+/// C01 / C06 / C02: structured contents that random payloads practically never produce: long runs of one character, digit groups
+/// 000 / 999, the pad pattern inside the data, trailing spaces, long runs of '/', repeated records, counters
+pub fn structured(seed: u64, thorough: bool) -> Vec<BuildSpec> {
+    let mut out = Vec::new();
+    let mut r = rng(seed, 11);
+    let mut texts: Vec<Vec<u8>> = Vec::new();
+    for n in [3usize, 8, 17, 40, 100, 300, 999, 2000] {
+        for c in [b'0', b'9', b'7', b'A', b'Z', b' ', b'/', b':', b'a', 0u8, 0xFF, 0xEC, 0x11, b'%'] { texts.push(vec![c; n]); }
+        texts.push((0..n).map(|i| if i % 2 == 0 { 0xEC } else { 0x11 }).collect());
+        texts.push((0..n).map(|i| b"000999"[i % 6]).collect());
+        texts.push((0..n).map(|i| b"0123456789"[i % 10]).collect());
+        texts.push((0..n).map(|i| ALNUM[i % 45]).collect());
+        texts.push((0..n).map(|i| (i % 256) as u8).collect());
+        texts.push(format!("https://example.com/{}", "/".repeat(n)).into_bytes());
+        texts.push(format!("{}{}", "HELLO WORLD", " ".repeat(n)).into_bytes());
+        texts.push(format!("{}{}", "x".repeat(n), "\u{ec}\u{11}").into_bytes());
+        let rec: Vec<u8> = b"item=ab;qty=00042;\n".to_vec();
+        texts.push(rec.iter().cycle().take(n).cloned().collect());
+        texts.push((0..n).flat_map(|i| format!("{:03}", (i * 37) % 1000).into_bytes()).take(n).collect());
+    }
+    if !thorough { let keep: Vec<Vec<u8>> = texts.iter().enumerate().filter(|(i, _)| i % 2 == 0 || i % 7 == 0).map(|(_, t)| t.clone()).collect(); texts = keep; }
+    for (i, t) in texts.into_iter().enumerate() {
+        let ecl = [None, Some(0usize), Some(2), Some(3)][i % 4];
+        let mask = if i % 3 == 0 { Some(i % 8) } else { None };
+        out.push(spec(t.clone(), ecl, None, None, mask, format!("structured:{}", i % 10)));
+        if i % 5 == 0 { out.push(spec(t, ecl, Some(2), None, mask, format!("structured-byte:{}", i % 10))); }
+    }
+    let _ = &mut r;
+    out
+}
